@@ -150,17 +150,6 @@ async def cwd_switch(net, hyg, plan):
                     rec[(where, "kinds-x")] = (await c.is_file("x"), await c.is_dir("x"))
                 elif probe == "exists":
                     rec[(where, "exists-y")] = await c.exists("y")
-            # the root, named absolutely, is the root from every working directory
-            try:
-                got_root = sorted(str(p_) for p_, _i in await c.list("/"))
-                got_all = sorted(str(p_) for p_, _i in await c.list("/", recursive=True))
-                top = (await c.stat("/keep.txt")).get("type")
-                mon["recursive_list"] += 1
-                if got_root != ["/a", "/b", "/keep.txt"] or got_all != sorted(remote0) or top != "file":
-                    viol.append({"key": "root-listing-wrong-from-another-cwd",
-                                 "msg": f"plan {plan}: in /{where}: list('/') = {got_root}, recursive {got_all[:6]}..., stat('/keep.txt') type {top}"})
-            except Exception as e:
-                viol.append({"key": "root-listing-raises-from-another-cwd", "msg": f"plan {plan}: in /{where}: {e!r}"[:300]})
         want = {("a", "type-x"): "file", ("b", "type-x"): "dir", ("a", "kinds-x"): (True, False), ("b", "kinds-x"): (False, True),
                 ("a", "exists-y"): False, ("b", "exists-y"): True}
         for k, v in rec.items():
@@ -190,6 +179,18 @@ async def cwd_switch(net, hyg, plan):
                         tree_want.pop(k)
         except Exception as e:
             viol.append({"key": f"{act}-raises:cwd-switch", "msg": f"plan {plan}: {e!r}"})
+        # (asked last: these questions must not come between the probes above and the action)
+        # the root, named absolutely, is the root from every working directory
+        try:
+            got_root = sorted(str(p_) for p_, _i in await c.list("/"))
+            got_all = sorted(str(p_) for p_, _i in await c.list("/", recursive=True))
+            top = (await c.stat("/keep.txt")).get("type")
+            mon["recursive_list"] += 1
+            if got_root != ["/a", "/b", "/keep.txt"] or got_all != sorted(tree_want) or top != "file":
+                viol.append({"key": "root-listing-wrong-from-another-cwd",
+                             "msg": f"plan {plan}: in /{second}: list('/') = {got_root}, recursive {got_all[:6]}..., stat('/keep.txt') type {top}"})
+        except Exception as e:
+            viol.append({"key": "root-listing-raises-from-another-cwd", "msg": f"plan {plan}: in /{second}: {e!r}"[:300]})
         if w.tree() != tree_want:
             viol.append({"key": f"{act}-wrong:cwd-switch", "msg": f"plan {plan}: tree {sorted(w.tree())} expected {sorted(tree_want)}"})
         await c.quit()
@@ -560,7 +561,7 @@ def run_case(case):
     for plan in case["plans"]:
         async def main(net, hyg, plan=plan):
             return await run_plan(net, hyg, plan)
-        res, info = W.run(main, seed=plan["seed"], net_kwargs=dict(latency=0.0003))
+        res, info = W.run(main, seed=plan["seed"], net_kwargs=dict(latency=0.0003), max_iterations=400_000)
         if res is None:
             return W.failed(info)
         viol, mon = res
